@@ -55,6 +55,12 @@ type Profile struct {
 	DupQ2Pct    int
 	CollidePct  int
 	Size        []int
+	SlotFilters map[int][]string // optional per-slot filter sets
+	NoWillSlots map[int]bool
+	// TakeoverSafe: connections on ids that have several slots (live takeover possible) are MQTT 5 with a
+	// non-zero session expiry, i.e. never sessions that end at disconnect (avoids the recorded
+	// late-cleanup race of a superseded connection, which is decided by schedule-controlled probes)
+	TakeoverSafe bool
 }
 
 func pickB(r *vk.Rand, xs []byte, def byte) byte {
@@ -115,7 +121,7 @@ func (p *Profile) Generate(r *vk.Rand) (*Config, []string, []Op) {
 	var ops []Op
 	steps := r.Range(p.Steps[0], p.Steps[1])
 	kinds := make([]string, 0, len(p.W))
-	for _, k := range []string{"connect", "subscribe", "unsubscribe", "publish", "disconnect", "ping", "hold", "tick", "retransmit", "pubrel", "ackone"} {
+	for _, k := range []string{"connect", "subscribe", "unsubscribe", "publish", "disconnect", "ping", "hold", "tick", "retransmit", "pubrel", "ackone", "failwrite"} {
 		if p.W[k] > 0 {
 			kinds = append(kinds, k)
 		}
@@ -134,11 +140,23 @@ func (p *Profile) Generate(r *vk.Rand) (*Config, []string, []Op) {
 	}
 	mkConnect := func(slot int) Op {
 		op := Op{Kind: "connect", C: slot, Ver: vk.Pick(r, p.Versions), Clean: r.Chance(p.CleanPct)}
+		shared := false
+		for j := range p.SlotIDs {
+			if j != slot && p.SlotIDs[j] == p.SlotIDs[slot] {
+				shared = true
+			}
+		}
+		if shared && p.TakeoverSafe {
+			op.Ver = 5 // ids that can be taken over live always hold sessions that outlive the connection
+		}
 		if op.Ver == 5 {
 			if len(p.Expiry) > 0 {
 				if e := vk.Pick(r, p.Expiry); e > 0 {
 					op.Expiry, op.ExpirySet = e, true
 				}
+			}
+			if shared && p.TakeoverSafe && !op.ExpirySet {
+				op.Expiry, op.ExpirySet = 300, true
 			}
 			if len(p.RecvMax) > 0 {
 				op.RecvMax = vk.Pick(r, p.RecvMax)
@@ -148,7 +166,7 @@ func (p *Profile) Generate(r *vk.Rand) (*Config, []string, []Op) {
 			}
 			op.RPI0 = r.Chance(p.RPI0Pct)
 		}
-		if r.Chance(p.WillPct) && len(p.WillTopics) > 0 {
+		if r.Chance(p.WillPct) && len(p.WillTopics) > 0 && !p.NoWillSlots[slot] {
 			w := &Will{Topic: vk.Pick(r, p.WillTopics), QoS: minb(pickB(r, p.PubQoS, 0), cfg.MaxQoS), Retain: r.Chance(p.RetainPct) && cfg.RetainAvailable}
 			if op.Ver == 5 && len(p.WillDelay) > 0 {
 				w.Delay = vk.Pick(r, p.WillDelay)
@@ -212,7 +230,11 @@ func (p *Profile) Generate(r *vk.Rand) (*Config, []string, []Op) {
 			}
 			op := Op{Kind: "subscribe", C: slot}
 			for k := 0; k < nf; k++ {
-				f := rc.SubFilter{Filter: vk.Pick(r, p.Filters), Options: pickB(r, p.SubQoS, 0)}
+				fs := p.Filters
+				if sf, ok := p.SlotFilters[slot]; ok {
+					fs = sf
+				}
+				f := rc.SubFilter{Filter: vk.Pick(r, fs), Options: pickB(r, p.SubQoS, 0)}
 				if st.ver[slot] == 5 {
 					if r.Chance(p.NLPct) && !(len(f.Filter) > 7 && f.Filter[:7] == "$share/") {
 						f.Options |= 4
@@ -307,6 +329,17 @@ func (p *Profile) Generate(r *vk.Rand) (*Config, []string, []Op) {
 				continue
 			}
 			ops = append(ops, Op{Kind: "ackone", C: slot})
+		case "failwrite":
+			if !st.connected[slot] {
+				continue
+			}
+			// the connection will die at the broker's next write(s); the generator treats it as gone
+			// (later operations on it are skipped by the simulator if it is still open)
+			ops = append(ops, Op{Kind: "failwrite", C: slot, N: r.Range(1, 2)})
+			if st.hold[slot] && r.Chance(70) {
+				ops = append(ops, Op{Kind: "ackone", C: slot})
+			}
+			st.connected[slot] = false
 		case "tick":
 			d := int64(100)
 			if len(p.TickDelta) > 0 {
